@@ -168,8 +168,15 @@ def cmd_check(pid, tier):
             if unknown:
                 c, a, b, fails = unknown[0]
                 name = fails[0]
-                small = shrink(st.mode, c, st.hook, lambda o: ("ok:%s=0" % name) in o)
-                a2, b2 = core.run_one(st.mode, small, st.hook)
+                if st.mode in core.CHECKER_MODES or st.mode == "race":
+                    # non-deterministic runs: keep the recorded observation, do not re-run
+                    small = c
+                    a2 = a
+                    raw = getattr(sr, "raw", None)
+                    b2 = "recorded history: " + raw[st.cases.index(c)] if raw else b
+                else:
+                    small = shrink(st.mode, c, st.hook, lambda o: ("ok:%s=0" % name) in o)
+                    a2, b2 = core.run_one(st.mode, small, st.hook)
                 path = core.write_replay(pid, "oracle", {
                     "property": pid, "what": "property oracle %s fails on the implementation" % name,
                     "mode": st.mode, "hook": st.hook, "case": small, "impl": a2, "model": b2,
